@@ -220,6 +220,12 @@ class SpecMixin:
     def sp_in_map(self, e, fr):
         m = self.ev(e.args[0], fr)
         k = self.ev(e.args[1], fr)
+        if isinstance(m, PDict):  # a freshly constructed (concrete) dict
+            alts = [ops.eq(self.ctx, k, key) for key in m.items]
+            alts = [a for a in alts if a is not False]
+            if any(a is True for a in alts):
+                return True
+            return mk_bool(z3.Or(*alts)) if alts else False
         if not getattr(self, "in_quant", False):
             self.ctx.add_key(z3_of_int(k))
         return mk_bool(z3.Select(m.has, z3_of_int(k)))
